@@ -406,7 +406,8 @@ def add_bench(m, path, indent, raw_name, form="plain", args=None, types=None, co
     ext = 'extern "%s" ' % extern if extern else ""
     text_lines = [pad + attr]
     if ignore_attr:
-        text_lines.append(pad + "#[ignore]")
+        # `#[ignore]` or, given a string, the name-value spelling `#[ignore = "reason"]`
+        text_lines.append(pad + ('#[ignore = "%s"]' % ignore_attr if isinstance(ignore_attr, str) else "#[ignore]"))
     fn_line_text = "%s%sfn %s%s(%s) { %s }" % (pad, ext, raw_name, gen, ", ".join(params), body_text)
     text_lines.append(fn_line_text)
     first = m.emit("\n".join(text_lines))
@@ -438,7 +439,8 @@ def open_mod(m, path, indent, name, group=None):
         opts.extend(group.get("options") or [])
         lines.append(pad + ("#[divan::bench_group(%s)]" % attr_options(opts) if opts else "#[divan::bench_group]"))
         if group.get("ignore_attr"):
-            lines.append(pad + "#[ignore]")
+            ia = group["ignore_attr"]
+            lines.append(pad + ('#[ignore = "%s"]' % ia if isinstance(ia, str) else "#[ignore]"))
     lines.append(pad + "mod %s {" % name)
     first = m.emit("\n".join(lines))
     if group is not None:
@@ -659,6 +661,14 @@ def family_ignore(m, tier):
     add_bench(m, gao, 8, "own_false", options=[("ignore", "false")])
     close_mod(m, 4)
     add_bench(m, path, 4, "attr_with_options", ignore_attr=True, options=[("sample_size", "1"), ("items_count", "2u32")])
+    # the name-value spelling of the attribute
+    add_bench(m, path, 4, "attr_with_reason", ignore_attr="flaky on CI")
+    add_bench(m, path, 4, "attr_with_reason_generic", ignore_attr="slow", types=["TA", "TB"])
+    add_bench(m, path, 4, "attr_with_reason_and_options", ignore_attr="needs a GPU", options=[("sample_count", "1")], args="strs")
+    gr = open_mod(m, path, 4, "igr", group={"ignore_attr": "whole group is slow"})
+    add_bench(m, gr, 8, "inherited")
+    add_bench(m, gr, 8, "own_false", options=[("ignore", "false")])
+    close_mod(m, 4)
     # a group that sets other options but not `ignore`, inside and outside ignored groups
     gb = open_mod(m, path, 4, "tuned_not_ignored", group={"options": [("sample_count", "1")]})
     add_bench(m, gb, 8, "runs")
